@@ -25,9 +25,11 @@ networkx is what the code under test runs on, so it is not used here.
 from __future__ import annotations
 
 import itertools
+import os
 from collections import deque
 
 from mc.core import HarnessError
+from mc.props.c15_agg import Agg, run_forked
 
 from molli.chem import Atom, Bond, BondType, Connectivity, Element
 from molli.chem import ConformerEnsemble, Molecule, Structure
@@ -48,6 +50,8 @@ BT = {
 }
 BT_CYCLE = ["Single", "Double", "Triple", "Aromatic"]
 EL = {"C": Element.C, "N": Element.N, "X": Element.Unknown}
+# get_substr_indices returns what match yields, re-indexed: the same symptom on both is one finding (reported on match)
+CONSEQUENTIAL = (("get_substr_indices", "match"), ("ConformerEnsemble.get_substr_indices", "match"))
 
 
 # =================================================================================================
@@ -265,7 +269,7 @@ def variants(n, mask, seed, thorough):
     """(class, bond_list, btypes, start forms) - layouts of one and the same labelled graph"""
     ed = edges_of(n, mask)
     m = len(ed)
-    out = [("Connectivity", ed, None, ("atom", "index", "label"))]
+    out = [("Connectivity", ed, [BT_CYCLE[(k + seed + 2) % 4] for k in range(m)], ("atom", "index", "label"))]
     # reversed orientation, bond list reversed and rotated, mixed bond types
     r = (seed % m) if m else 0
     rev = [(j, i) for i, j in reversed(ed)]
@@ -278,10 +282,8 @@ def variants(n, mask, seed, thorough):
     alt = alt[r2:] + alt[:r2]
     bts2 = [BT_CYCLE[(k + seed + 1) % 4] for k in range(m)]
     out.append(("ConformerEnsemble", alt, bts2, ("atom",)))
-    if n <= 5:
-        out.append(("Molecule", alt, bts2, ("atom",)))
-    if n <= 4:
-        out.append(("Structure", rev, bts, ("atom",)))
+    out.append(("Molecule", alt, bts2, ("atom",)))
+    out.append(("Structure", rev, bts, ("atom",)))
     return out
 
 
@@ -289,7 +291,7 @@ def graph_class(adj, comp):
     return "cyclic" if has_cycle_in_component(adj, comp) else "acyclic"
 
 
-def check_graph(ctx, cls_name, n, bond_list, btypes, forms, only_sig=None):
+def check_graph(ctx, agg, cls_name, n, bond_list, btypes, forms):
     """all queries of part G on one molli object; returns the observation digest"""
     obj = build(cls_name, n, bond_list, None, btypes)
     atoms = list(obj.atoms)
@@ -300,11 +302,10 @@ def check_graph(ctx, cls_name, n, bond_list, btypes, forms, only_sig=None):
     ncalls = 0
     obs = []
 
-    def viol(op, cls, symptom, what, query):
-        sig = f"{op}:{cls}:{symptom}" if cls else f"{op}:{symptom}"
-        case = {"kind": "graph", "cls": cls_name, "n": n, "bond_list": [list(x) for x in bond_list], "btypes": btypes, "forms": list(forms), "query": query}
+    def viol(op, attrs, symptom, what, query):
+        case = {"kind": "graph", "op": op, "symptom": symptom, "cls": cls_name, "n": n, "bond_list": [list(x) for x in bond_list], "btypes": btypes, "forms": list(forms), "query": query}
         rep = repro_build(cls_name, n, bond_list, None, btypes) + [f"print({query})"]
-        ctx.violation(sig, f"{what} [{cls_name}, {n} atoms, bonds {bond_list}]", case, "\n".join(rep))
+        agg.fail(op, symptom, attrs, f"{what} [{cls_name}, {n} atoms, bonds {bond_list}]", case, "\n".join(rep))
 
     def arg(i, form):
         return atoms[i] if form == "atom" else (i if form == "index" else f"a{i}")
@@ -315,9 +316,17 @@ def check_graph(ctx, cls_name, n, bond_list, btypes, forms, only_sig=None):
     for s in range(n):
         dist = bfs_dist(adj, s)
         comp = set(dist)
-        gcls = graph_class(adj, comp)
         expected = comp - {s}
         for form in forms:
+            gcls = {"class": cls_name, "component": graph_class(adj, comp), "start": form}
+            acls = {"class": cls_name, "atom": form}
+            for _op in ("yield_bfsd", "yield_bfs"):
+                agg.tick(_op, gcls)
+            if adj[s]:
+                for _op in ("yield_bfsd(direction)", "yield_bfs(direction)"):
+                    agg.tick(_op, gcls)
+            for _op in ("connected_atoms", "bonds_with_atom", "bonded_valence", "n_bonds_with_atom"):
+                agg.tick(_op, acls)
             # ---- yield_bfsd(start) ------------------------------------------------------------
             q = f"[(g.atoms.index(a), d) for a, d in g.yield_bfsd({arg(s, form)!r})]" if form != "atom" else f"[(g.atoms.index(a), d) for a, d in g.yield_bfsd(g.atoms[{s}])]"
             ncalls += 1
@@ -376,45 +385,47 @@ def check_graph(ctx, cls_name, n, bond_list, btypes, forms, only_sig=None):
             try:
                 got = sorted(idx_of(a) if idx_of(a) is not None else -1 for a in obj.connected_atoms(arg(s, form)))
                 if got != ref_nb:
-                    viol("connected_atoms", "", "differs-from-bond-list", f"connected_atoms({s}) = {got}, bond list says {ref_nb}", f"[g.atoms.index(a) for a in g.connected_atoms({a_repr})]")
+                    viol("connected_atoms", acls, "differs-from-bond-list", f"connected_atoms({s}) = {got}, bond list says {ref_nb}", f"[g.atoms.index(a) for a in g.connected_atoms({a_repr})]")
                 obs.append(("nb", s, tuple(got)))
             except Exception as e:
-                viol("connected_atoms", "", f"raised-{type(e).__name__}", f"connected_atoms({s}) raised {type(e).__name__}: {e}", f"list(g.connected_atoms({a_repr}))")
+                viol("connected_atoms", acls, f"raised-{type(e).__name__}", f"connected_atoms({s}) raised {type(e).__name__}: {e}", f"list(g.connected_atoms({a_repr}))")
             try:
                 gotb = list(obj.bonds_with_atom(arg(s, form)))
                 if sorted(id(b) for b in gotb) != sorted(id(b) for b in ref_bonds):
-                    viol("bonds_with_atom", "", "differs-from-bond-list", f"bonds_with_atom({s}) returned {len(gotb)} bonds, the bond list holds {len(ref_bonds)} with that atom (or other bonds were returned)", f"list(g.bonds_with_atom({a_repr}))")
+                    viol("bonds_with_atom", acls, "differs-from-bond-list", f"bonds_with_atom({s}) returned {len(gotb)} bonds, the bond list holds {len(ref_bonds)} with that atom (or other bonds were returned)", f"list(g.bonds_with_atom({a_repr}))")
             except Exception as e:
-                viol("bonds_with_atom", "", f"raised-{type(e).__name__}", f"bonds_with_atom({s}) raised {type(e).__name__}: {e}", f"list(g.bonds_with_atom({a_repr}))")
+                viol("bonds_with_atom", acls, f"raised-{type(e).__name__}", f"bonds_with_atom({s}) raised {type(e).__name__}: {e}", f"list(g.bonds_with_atom({a_repr}))")
             try:
                 v = obj.bonded_valence(arg(s, form))
                 if not (isinstance(v, (int, float)) and float(v) == ref_val):
-                    viol("bonded_valence", "", "differs-from-bond-list", f"bonded_valence({s}) = {v!r}, sum of the orders of its bonds in the bond list = {ref_val!r}", f"g.bonded_valence({a_repr})")
+                    viol("bonded_valence", acls, "differs-from-bond-list", f"bonded_valence({s}) = {v!r}, sum of the orders of its bonds in the bond list = {ref_val!r}", f"g.bonded_valence({a_repr})")
                 obs.append(("val", s, v))
             except Exception as e:
-                viol("bonded_valence", "", f"raised-{type(e).__name__}", f"bonded_valence({s}) raised {type(e).__name__}: {e}", f"g.bonded_valence({a_repr})")
+                viol("bonded_valence", acls, f"raised-{type(e).__name__}", f"bonded_valence({s}) raised {type(e).__name__}: {e}", f"g.bonded_valence({a_repr})")
             try:
                 k = obj.n_bonds_with_atom(arg(s, form))
                 if k != len(ref_bonds):
-                    viol("n_bonds_with_atom", "", "differs-from-bond-list", f"n_bonds_with_atom({s}) = {k!r}, the bond list holds {len(ref_bonds)}", f"g.n_bonds_with_atom({a_repr})")
+                    viol("n_bonds_with_atom", acls, "differs-from-bond-list", f"n_bonds_with_atom({s}) = {k!r}, the bond list holds {len(ref_bonds)}", f"g.n_bonds_with_atom({a_repr})")
             except Exception as e:
-                viol("n_bonds_with_atom", "", f"raised-{type(e).__name__}", f"n_bonds_with_atom({s}) raised {type(e).__name__}: {e}", f"g.n_bonds_with_atom({a_repr})")
+                viol("n_bonds_with_atom", acls, f"raised-{type(e).__name__}", f"n_bonds_with_atom({s}) raised {type(e).__name__}: {e}", f"g.n_bonds_with_atom({a_repr})")
 
     # ---- ring membership ----------------------------------------------------------------------
+    rcls = {"class": cls_name}
     for k, b in enumerate(bonds):
         i, j = bond_list[k]
         bridge = is_bridge(n, edges, (i, j))
+        agg.tick("is_bond_in_ring", rcls)
         q = f"g.is_bond_in_ring(g.bonds[{k}])"
         ncalls += 1
         try:
             r = obj.is_bond_in_ring(b)
         except Exception as e:
-            viol("is_bond_in_ring", "", f"raised-{type(e).__name__}", f"is_bond_in_ring(bond {i}-{j}) raised {type(e).__name__}: {e}", q)
+            viol("is_bond_in_ring", rcls, f"raised-{type(e).__name__}", f"is_bond_in_ring(bond {i}-{j}) raised {type(e).__name__}: {e}", q)
             continue
         obs.append(("ring", i, j, bool(r)))
         if bool(r) != (not bridge):
             sym = "bridge-reported-in-ring" if bridge else "ring-bond-reported-not-in-ring"
-            viol("is_bond_in_ring", "", sym, f"is_bond_in_ring(bond {i}-{j}) = {r!r} but the bond is {'a bridge' if bridge else 'not a bridge'}", q)
+            viol("is_bond_in_ring", rcls, sym, f"is_bond_in_ring(bond {i}-{j}) = {r!r} but the bond is {'a bridge' if bridge else 'not a bridge'}", q)
     ctx.count(transitions=ncalls)
     return obs
 
@@ -467,14 +478,14 @@ def _check_directional(viol, op, gcls, s, d, order, labels, exp_dir, reach, dist
             viol(op, gcls, "wrong-distance-label", f"{op}({s}->{d}) yielded {list(zip(order, labels))}: neither the distances along paths through {d} avoiding {s} nor the true distances", q)
 
 
-def run_graph_part(ctx, part):
+def run_graph_part(ctx, agg, part):
     n, lo, hi = part["n"], part["lo"], part["hi"]
     seed = ctx.seed
     for mask in range(lo, hi):
         ed = edges_of(n, mask)
         adj = adjacency(n, ed)
         for cls_name, bl, bts, forms in variants(n, mask, seed, ctx.thorough):
-            obs = check_graph(ctx, cls_name, n, bl, bts, forms)
+            obs = check_graph(ctx, agg, cls_name, n, bl, bts, forms)
             ctx.count(evaluations=1, traces=1)
         ctx.count(states=1)
         if ed:
@@ -493,14 +504,14 @@ def _graph_args(g, bt):
     return n, ed, cols, [bt] * len(ed)
 
 
-def check_match(ctx, tg, pg, bt, apis):
+def check_match(ctx, agg, tg, pg, bt, apis):
     """one (target, pattern) pair through the named entry points"""
     tn, ted, tcols, tbts = _graph_args(tg, bt)
     pn, ped, pcols, pbts = _graph_args(pg, bt)
     tadj, padj = adjacency(tn, ted), adjacency(pn, ped)
     expected = embeddings(tn, tadj, tcols, pn, padj, pcols)
-    pcls = "pattern-with-Unknown" if "X" in pcols else "pattern-plain"
-    btcls = "" if bt == "Single" else f"[bonds={bt}]"
+    pcls = "with-Unknown" if "X" in pcols else "plain"
+    mattrs = {"bonds": bt, "pattern": pcls}
     pat = build("Connectivity", pn, ped, pcols, pbts)
     patoms = list(pat.atoms)
 
@@ -511,16 +522,17 @@ def check_match(ctx, tg, pg, bt, apis):
         tpos = {id(a): i for i, a in enumerate(tatoms)}
         opname = {"match": "match", "get_substr_indices": "get_substr_indices", "ens.get_substr_indices": "ConformerEnsemble.get_substr_indices"}[api]
 
+        agg.tick(opname, mattrs)
+
         def viol(symptom, what):
-            sig = f"{opname}{btcls}:{pcls}:{symptom}"
-            case = {"kind": "match", "target": [tn, tg[1], list(tcols)], "pattern": [pn, pg[1], list(pcols)], "bt": bt, "api": api}
+            case = {"kind": "match", "op": opname, "symptom": symptom, "target": [tn, tg[1], list(tcols)], "pattern": [pn, pg[1], list(pcols)], "bt": bt, "api": api}
             rep = repro_build(cls_name, tn, ted, tcols, tbts)
             rep += ["t = g"] + repro_build("Connectivity", pn, ped, pcols, pbts)[1:] + ["p = g"]
             if api == "match":
                 rep.append("print([[t.atoms.index(m[a]) for a in p.atoms] for m in t.match(p)])")
             else:
                 rep.append("print(list(t.get_substr_indices(p)))")
-            ctx.violation(sig, f"{what} [target {tn} atoms {''.join(tcols)} bonds {ted}; pattern {''.join(pcols)} bonds {ped}; all bonds {bt}]", case, "\n".join(rep))
+            agg.fail(opname, symptom, mattrs, f"{what} [target {tn} atoms {''.join(tcols)} bonds {ted}; pattern {''.join(pcols)} bonds {ped}; all bonds {bt}]", case, "\n".join(rep))
 
         ctx.count(transitions=1, evaluations=1, traces=1)
         got = []
@@ -551,12 +563,12 @@ def check_match(ctx, tg, pg, bt, apis):
     return len(expected), ninj
 
 
-def run_match_part(ctx, part):
+def run_match_part(ctx, agg, part):
     targets, patterns, bt, apis = part["targets"], part["patterns"], part["bt"], part["apis"]
     for tg in targets:
         nt = False
         for pg in patterns:
-            ne, ninj = check_match(ctx, tg, pg, bt, apis)
+            ne, ninj = check_match(ctx, agg, tg, pg, bt, apis)
             ctx.count(states=1)
             if 0 < ne < ninj:
                 nt = True
@@ -570,12 +582,6 @@ def seed_rep(g, seed):
     return (n, mask_of(n, e2), c2)
 
 
-def chunks(lst, k):
-    k = max(1, k)
-    size = max(1, (len(lst) + k - 1) // k)
-    return [lst[i : i + size] for i in range(0, len(lst), size)]
-
-
 # =================================================================================================
 def run(ctx):
     seed = ctx.seed
@@ -583,7 +589,7 @@ def run(ctx):
     nmax = 6 if thorough else 5
     pmax = 4 if thorough else 3
     ctx.rule = (
-        "part G: every labelled simple graph on 1..nmax atoms, each as 3-5 real molli objects (two bond-list layouts, "
+        "part G: every labelled simple graph on 1..nmax atoms, each as 5 real molli objects (three bond-list layouts, "
         "Connectivity/Structure/Molecule/ConformerEnsemble), every start atom, every neighbour as direction, every bond, every atom; "
         "a graph is non-trivial when it has at least one bond. part M: (target, pattern) pairs through match / get_substr_indices; a "
         "target is non-trivial when for some pattern the induced embeddings are neither none nor all injective maps. "
@@ -608,7 +614,9 @@ def run(ctx):
         step = max(1, total // (64 if n == 6 else (16 if n == 5 else 1)))
         for lo in range(0, total, step):
             parts.append({"n": n, "lo": lo, "hi": min(total, lo + step)})
-    ctx.pmap(run_graph_part, parts)
+    agg = Agg()
+    nproc = int(os.environ.get("VERIF_NPROC", "0")) or min(16 if thorough else 8, os.cpu_count() or 1)
+    run_forked(ctx, agg, [(f"graphs n={p['n']} [{p['lo']},{p['hi']})", run_graph_part, p) for p in parts], nproc, 800)
     ctx.bound["G_atoms_max"] = nmax
     ctx.bound["G_graphs"] = sum(1 << len(pairs(n)) for n in range(1, nmax + 1))
 
@@ -628,9 +636,13 @@ def run(ctx):
     if thorough:
         # the full product the plan names for patterns <= 3 ...
         blocks.append(("labelled targets <=5 x labelled patterns <=3 [match]", cat(T_lab, range(1, 6)), cat(P_lab, range(1, 4)), "Single", ("match",)))
-        # ... and 4-atom patterns: full product up to 4-atom targets, one representative per isomorphism class of 5-atom targets
-        blocks.append(("labelled targets <=4 x labelled patterns =4 [match]", cat(T_lab, range(1, 5)), P_lab[4], "Single", ("match",)))
-        blocks.append(("class-representative targets =5 x labelled patterns =4 [match]", T_can[5], P_lab[4], "Single", ("match",)))
+        # ... and 4-atom patterns with one side labelled and one representative per isomorphism class on the other side
+        # (the labelled x labelled product with 4-atom patterns is 10^8 calls of ~1 ms)
+        blocks.append(("labelled targets <=4 x class-representative patterns =4 [match]", cat(T_lab, range(1, 5)), P_can[4], "Single", ("match",)))
+        blocks.append(("class-representative targets <=4 x labelled patterns =4 [match]", cat(T_can, range(1, 5)), P_lab[4], "Single", ("match",)))
+        blocks.append(("class-representative targets =5 x class-representative patterns =4 [match]", T_can[5], P_can[4], "Single", ("match",)))
+        mixed = tuple(("CNCNN" * 2)[seed % 5 : seed % 5 + 5])
+        blocks.append(("all labelled 5-atom graphs with one mixed element assignment x class-representative patterns =4 [match]", [(5, m, mixed) for m in range(1 << 10)], P_can[4], "Single", ("match",)))
         blocks.append(("labelled targets <=4 x labelled patterns <=3 [get_substr_indices]", cat(T_lab, range(1, 5)), cat(P_lab, range(1, 4)), "Single", ("get_substr_indices",)))
         blocks.append(("class-representative targets <=5 x labelled patterns <=3 [get_substr_indices x2]", can_all_T, cat(P_lab, range(1, 4)), "Single", ("get_substr_indices", "ens.get_substr_indices")))
         blocks.append(("class-representative targets <=5 x class-representative patterns =4 [get_substr_indices x2]", can_all_T, P_can[4], "Single", ("get_substr_indices", "ens.get_substr_indices")))
@@ -662,12 +674,13 @@ def run(ctx):
                 parts.append({"targets": sub, "patterns": pt, "bt": bt, "apis": apis})
     ctx.bound["M_blocks_calls"] = sizes
     ctx.bound["M_pattern_atoms_max"] = pmax
-    ctx.pmap(run_match_part, parts)
+    run_forked(ctx, agg, [(f"matching part {i}", run_match_part, p) for i, p in enumerate(parts)], nproc, 800)
+    agg.emit(ctx, consequential=CONSEQUENTIAL)
 
     # ---- a few cases written out (run in this process, deterministic) -----------------------------
     sc = ctx.sub(10_000)
     for n, ed in [(3, [(0, 1), (1, 2)]), (4, [(0, 1), (1, 2), (0, 2), (2, 3)]), (5, [(0, 1), (1, 2), (2, 3), (0, 3), (3, 4)])]:
-        obs = check_graph(sc, "Connectivity", n, ed, None, ("atom",))
+        obs = check_graph(sc, Agg(), "Connectivity", n, ed, None, ("atom",))
         ctx.sample({"kind": "graph", "n": n, "bonds": ed, "observed": [o for o in obs if o[0] in ("bfsd", "ring", "bfsd-dir")][:12]})
     for tg, pg in [((4, mask_of(4, [(0, 1), (1, 2), (2, 3)]), ("C", "N", "C", "C")), (2, 1, ("X", "C"))), ((3, 7, ("C", "C", "N")), (3, 3, ("C", "C", "X")))]:
         tn, ted, tcols, _ = _graph_args(tg, "Single")
@@ -678,9 +691,11 @@ def run(ctx):
 
 
 def replay(ctx, case):
+    agg = Agg()
     if case["kind"] == "graph":
-        check_graph(ctx, case["cls"], case["n"], [tuple(x) for x in case["bond_list"]], case["btypes"], tuple(case["forms"]))
+        check_graph(ctx, agg, case["cls"], case["n"], [tuple(x) for x in case["bond_list"]], case["btypes"], tuple(case["forms"]))
     else:
         tn, tm, tc = case["target"]
         pn, pm, pc = case["pattern"]
-        check_match(ctx, (tn, tm, tuple(tc)), (pn, pm, tuple(pc)), case["bt"], (case["api"],))
+        check_match(ctx, agg, (tn, tm, tuple(tc)), (pn, pm, tuple(pc)), case["bt"], (case["api"],))
+    agg.emit(ctx, replay_of=case)
